@@ -26,6 +26,8 @@ pub enum Wr {
     Guard,
     Hide,
     Fallback,
+    /// `fallback(v).display_fallback()`: the same parser, the default is shown in the help
+    FallbackShown,
     FallbackWithOk,
     FallbackWithErr,
     Last,
@@ -38,6 +40,8 @@ pub enum Wr {
     Collect,
     GuardLen,
     FallbackList,
+    /// `.count()`: the number of occurrences; every occurrence still has to be valid
+    Count,
 }
 #[derive(Clone, Copy, Debug, PartialEq, Eq, Serialize, Deserialize)]
 pub enum Ctx6 {
@@ -45,6 +49,8 @@ pub enum Ctx6 {
     AltBranch,
     InCommand,
     InAdjacent,
+    /// inside an `.adjacent()` sub-command
+    InAdjCommand,
 }
 #[derive(Clone, Debug, Serialize, Deserialize)]
 pub struct Def {
@@ -60,6 +66,8 @@ pub struct Def {
 }
 
 const ENVV: &str = "BPAFMC_N";
+/// a second, alias, variable of the env-backed item: consulted when the first one is unset
+const ENVV2: &str = "BPAFMC_N2";
 
 #[derive(Clone, Copy, PartialEq, Eq)]
 enum Ty6 {
@@ -69,14 +77,15 @@ enum Ty6 {
 }
 fn out_ty(w: Wr) -> Ty6 {
     match w {
-        Wr::Guard | Wr::Hide | Wr::Fallback | Wr::FallbackWithOk | Wr::FallbackWithErr | Wr::Last => Ty6::Scalar,
+        Wr::Guard | Wr::Hide | Wr::Fallback | Wr::FallbackShown | Wr::FallbackWithOk | Wr::FallbackWithErr | Wr::Last => Ty6::Scalar,
         Wr::Optional | Wr::OptionalCatch => Ty6::Opt,
+        Wr::Count => Ty6::Opt, // a terminal type: only `hide` may follow
         _ => Ty6::List,
     }
 }
 fn applicable(cur: Ty6) -> Vec<Wr> {
     match cur {
-        Ty6::Scalar => vec![Wr::Guard, Wr::Hide, Wr::Fallback, Wr::FallbackWithOk, Wr::FallbackWithErr, Wr::Last, Wr::Optional, Wr::OptionalCatch, Wr::Many, Wr::ManyCatch, Wr::Some, Wr::SomeCatch, Wr::Collect],
+        Ty6::Scalar => vec![Wr::Guard, Wr::Hide, Wr::Fallback, Wr::FallbackShown, Wr::FallbackWithOk, Wr::FallbackWithErr, Wr::Last, Wr::Optional, Wr::OptionalCatch, Wr::Many, Wr::ManyCatch, Wr::Some, Wr::SomeCatch, Wr::Collect, Wr::Count],
         Ty6::Opt => vec![Wr::Hide],
         Ty6::List => vec![Wr::GuardLen, Wr::Hide, Wr::FallbackList],
     }
@@ -111,7 +120,7 @@ fn prim_p(p: Prim) -> P {
         Prim::ArgParse => P::Parse(P::arg(names, Ty::Str).bx(), ParseK::ToU32),
         Prim::ArgGuard => P::Guard(P::arg(names, Ty::U32).bx(), GuardK::Lt10),
         Prim::Pos => P::pos(Ty::U32),
-        Prim::EnvArg => P::arg(names.env(ENVV), Ty::U32),
+        Prim::EnvArg => P::arg(names.env(ENVV).env(ENVV2), Ty::U32),
     }
 }
 fn apply(w: Wr, p: P) -> P {
@@ -119,6 +128,7 @@ fn apply(w: Wr, p: P) -> P {
         Wr::Guard => P::Guard(p.bx(), GuardK::Lt10),
         Wr::Hide => P::Hide(p.bx()),
         Wr::Fallback => P::Fallback(p.bx(), Val::N(5), false),
+        Wr::FallbackShown => P::Fallback(p.bx(), Val::N(5), true),
         Wr::FallbackWithOk => P::FallbackWith(p.bx(), Ok(Val::N(5))),
         Wr::FallbackWithErr => P::FallbackWith(p.bx(), Err("no default available".into())),
         Wr::Last => P::Last(p.bx()),
@@ -128,6 +138,7 @@ fn apply(w: Wr, p: P) -> P {
         Wr::ManyCatch => P::Many(p.bx(), true),
         Wr::Some => P::Some_(p.bx(), false),
         Wr::SomeCatch => P::Some_(p.bx(), true),
+        Wr::Count => P::Count(p.bx()),
         Wr::Collect => P::Collect(p.bx(), false),
         Wr::GuardLen => P::Guard(p.bx(), GuardK::Len2),
         Wr::FallbackList => P::Fallback(p.bx(), Val::L(vec![Val::N(5)]), false),
@@ -149,7 +160,7 @@ pub fn to_opts(d: &Def) -> Opts {
     }
     let is_pos = d.prim == Prim::Pos;
     let field = match d.ctx {
-        Ctx6::Top | Ctx6::InCommand => item,
+        Ctx6::Top | Ctx6::InCommand | Ctx6::InAdjCommand => item,
         Ctx6::AltBranch => P::Alt(vec![P::Map(item.bx(), "it".into()), P::Map(P::ReqFlag(Names::both('z', "zed")).bx(), "z".into())]),
         Ctx6::InAdjacent => P::Adj(vec![P::ReqFlag(Names::both('g', "grp")), item]).opt(),
     };
@@ -160,6 +171,7 @@ pub fn to_opts(d: &Def) -> Opts {
     level.cfg.fallback_to_usage = d.usage;
     match d.ctx {
         Ctx6::InCommand => Opts::new(P::Seq(vec![P::Switch(Names::both('o', "outer")), P::cmd("cmd", level)])),
+        Ctx6::InAdjCommand => Opts::new(P::Seq(vec![P::Switch(Names::both('o', "outer")), P::Cmd { name: "cmd".into(), shorts: vec![], longs: vec![], inner: Box::new(level), adjacent: true, help: None }])),
         _ => level,
     }
 }
@@ -173,9 +185,9 @@ fn absent_ok(s: &[Wr]) -> bool {
     for w in s {
         ok = match w {
             Wr::Guard | Wr::Hide | Wr::Last | Wr::GuardLen => ok,
-            Wr::Fallback | Wr::FallbackWithOk | Wr::FallbackList => true,
+            Wr::Fallback | Wr::FallbackShown | Wr::FallbackWithOk | Wr::FallbackList => true,
             Wr::FallbackWithErr => ok,
-            Wr::Optional | Wr::OptionalCatch | Wr::Many | Wr::ManyCatch | Wr::Collect => true,
+            Wr::Optional | Wr::OptionalCatch | Wr::Many | Wr::ManyCatch | Wr::Collect | Wr::Count => true,
             Wr::Some | Wr::SomeCatch => ok,
         };
     }
@@ -192,7 +204,7 @@ fn guarded(d: &Def) -> bool {
             Wr::Guard => return true,
             // after `last` a guard sees only the last value: earlier ones are dropped by design
             Wr::Last => return false,
-            Wr::Hide | Wr::Fallback | Wr::FallbackWithOk | Wr::FallbackWithErr => {}
+            Wr::Hide | Wr::Fallback | Wr::FallbackShown | Wr::FallbackWithOk | Wr::FallbackWithErr => {}
             _ => return false,
         }
     }
@@ -207,6 +219,7 @@ pub fn alphabet_for(d: &Def) -> Vec<Tok> {
     } else {
         a.push(Tok::s("--num=7"));
         a.push(Tok::s("--num=3"));
+        a.push(Tok::s("-n3"));
         a.push(Tok::s("-n"));
         a.push(Tok::s("7"));
     }
@@ -218,7 +231,7 @@ pub fn alphabet_for(d: &Def) -> Vec<Tok> {
     }
     match d.ctx {
         Ctx6::AltBranch => a.push(Tok::s("-z")),
-        Ctx6::InCommand => {
+        Ctx6::InCommand | Ctx6::InAdjCommand => {
             a.push(Tok::s("cmd"));
             a.push(Tok::s("-o"));
         }
@@ -240,6 +253,9 @@ fn typed_occurrences(d: &Def, argv: &[Tok]) -> Vec<(usize, Vec<u8>)> {
             }
         } else if t.starts_with(b"--num=") {
             out.push((i, b"--num=".to_vec()));
+        } else if t.starts_with(b"-n") && t.len() > 2 && t[2] != b'=' {
+            // the value attached to the short name
+            out.push((i, b"-n".to_vec()));
         } else if t == b"-n" && i + 1 < argv.len() && argv[i + 1].0 == b"7" {
             out.push((i + 1, vec![]));
             i += 1;
@@ -293,6 +309,11 @@ fn check_accepted(d: &Def, unit: &Value, p: &bpaf::OptionParser<Val>, argv: &[To
             if b.attached_only && prefix.is_empty() {
                 continue;
             }
+            // attached to the short name: no value at all is a bare name, bytes that are not
+            // UTF-8 are C02's business (known findings there)
+            if prefix == b"-n" && (b.text.is_empty() || b.text == [0xff] || b.text == b"-1") {
+                continue;
+            }
             if d.prim == Prim::Pos && b.text.is_empty() {
                 // an empty word is a legitimate positional item; still invalid for u32
             }
@@ -329,12 +350,30 @@ fn check_accepted(d: &Def, unit: &Value, p: &bpaf::OptionParser<Val>, argv: &[To
             }
         }
     }
+    // the attached short spelling of a valid value means the same as the inline long one (not
+    // for hidden items: that is the known finding F3a of C02)
+    if d.prim != Prim::Pos && !d.stack.contains(&Wr::Hide) {
+        if let Some(i) = argv.iter().position(|t| t.0 == b"--num=3") {
+            let mut v2 = argv.to_vec();
+            v2[i] = Tok::s("-n3");
+            if only.map_or(true, |o| o == v2.as_slice()) {
+                ctx.s.evaluations += 1;
+                let base = run(p, argv);
+                let r = run(p, &v2);
+                if r != base {
+                    ctx.violation(viol("attached-short-spelling-of-a-valid-value-is-the-same", d, unit, "respelled", argv, &v2, format!("the outcome of the long inline spelling: {}", base.brief()), &r));
+                } else {
+                    ctx.count("respelled-valid-values");
+                }
+            }
+        }
+    }
     // the item removed entirely (all its occurrences)
     let mut v3: Vec<Tok> = vec![];
     let mut i = 0;
     while i < argv.len() {
         let t = &argv[i].0;
-        let is_typed = if d.prim == Prim::Pos { t == b"7" || t == b"3" } else { t.starts_with(b"--num=") };
+        let is_typed = if d.prim == Prim::Pos { t == b"7" || t == b"3" } else { t.starts_with(b"--num=") || (t.starts_with(b"-n") && t.len() > 2) };
         if is_typed {
             i += 1;
             continue;
@@ -366,7 +405,7 @@ fn check_accepted(d: &Def, unit: &Value, p: &bpaf::OptionParser<Val>, argv: &[To
     // with fallback_to_usage a level that got no items at all answers with its usage
     let level_empty = d.usage
         && (v3.is_empty()
-            || (d.ctx == Ctx6::InCommand
+            || (matches!(d.ctx, Ctx6::InCommand | Ctx6::InAdjCommand)
                 && v3.iter().position(|t| t.0 == b"cmd").map_or(false, |c| v3[c + 1..].iter().all(|t| t.0 == b"-o" || t.0 == b"--outer"))));
     let ok = match (&r, expect_value || group_absent) {
         (Outcome::Value(_), true) => true,
@@ -388,17 +427,23 @@ fn env_clause(d: &Def, unit: &Value, p: &bpaf::OptionParser<Val>, ctx: &mut Ctx)
     }
     // absent from the line, variable holds an invalid value: same conversion, same failure
     for (val, frag) in [(&b"x"[..], "invalid digit found in string"), (&b""[..], "cannot parse integer from empty string"), (&b"1\xff"[..], "is not a valid utf8")] {
-        std::env::set_var(ENVV, Tok(val.to_vec()).os());
-        let argv: Vec<Tok> = if d.ctx == Ctx6::InCommand { toks(&["cmd"]) } else if d.ctx == Ctx6::InAdjacent { toks(&["--grp"]) } else { vec![] };
+        // through the first variable, and through the second one with the first unset
+        for var in [ENVV, ENVV2] {
+        std::env::remove_var(ENVV);
+        std::env::remove_var(ENVV2);
+        std::env::set_var(var, Tok(val.to_vec()).os());
+        let argv: Vec<Tok> = if matches!(d.ctx, Ctx6::InCommand | Ctx6::InAdjCommand) { toks(&["cmd"]) } else if d.ctx == Ctx6::InAdjacent { toks(&["--grp"]) } else { vec![] };
         ctx.s.evaluations += 1;
         let r = run(p, &argv);
         std::env::remove_var(ENVV);
+        std::env::remove_var(ENVV2);
         if has_catch(&d.stack) {
             continue;
         }
         match &r {
             Outcome::Stderr(t) if d.ctx == Ctx6::AltBranch || t.contains(frag) => ctx.count("invalid-variable-rejected"),
-            _ => ctx.violation(viol("present-but-invalid-fails", d, unit, "invalid-env", &argv, &argv, format!("stderr with {:?}", frag), &r)),
+            _ => ctx.violation(viol("present-but-invalid-fails", d, unit, "invalid-env", &argv, &argv, format!("stderr with {:?} ({} = {:?})", frag, var, String::from_utf8_lossy(val)), &r)),
+        }
         }
     }
 }
@@ -576,7 +621,7 @@ impl Check for C06 {
         let st = stacks(3);
         for prim in [Prim::ArgFromStr, Prim::ArgParse, Prim::ArgGuard, Prim::Pos, Prim::EnvArg] {
             for s in &st {
-                for c in [Ctx6::Top, Ctx6::AltBranch, Ctx6::InCommand, Ctx6::InAdjacent] {
+                for c in [Ctx6::Top, Ctx6::AltBranch, Ctx6::InCommand, Ctx6::InAdjacent, Ctx6::InAdjCommand] {
                     if prim == Prim::Pos && c == Ctx6::AltBranch {
                         continue; // a positional beside a named alternative: order rule
                     }
@@ -655,7 +700,7 @@ impl Check for C06 {
         }
     }
     fn rule(&self) -> String {
-        "definitions = typed u32 primitive {argument via FromStr, argument via .parse(f), guarded argument, positional, env-backed argument} under EVERY type-correct wrapper stack of depth <= 3 from {guard, hide, fallback, fallback_with ok/err, last, optional, many, some, collect (with and without catch), guard on the list, fallback on the list} in 4 contexts {top-level field, branch of an alternative, inside a sub-command, member of an adjacent group} beside 0..2 neutral items, the bare levels also with fallback_to_usage (a present invalid value still fails with its own message); accepted vectors are discovered on the whole token tree; for each, every typed value occurrence is replaced by each of {x, empty, -1 attached, 99999999999, \\xff, guard-violating 11} -> must be an stderr failure whose text carries the FromStr / parse / guard message (text not demanded inside an alternative, nothing demanded under catch); the item removed -> a value iff the stack defaults when absent, else an stderr failure; env-backed: invalid (unparsable, empty, non-UTF-8) variable with the item absent from the line fails the same way; plus a guard attached to a GROUP of two arguments (plain and adjacent), the group bare / optional / many / some, judged on every vector of length <= 5-6 by a pairing model (k-th --min with k-th --max; a present pair violating the guard must fail with the guard's message, whichever repetition it is); evaluation = one run; non-trivial = accepted vector containing a typed value".into()
+        "definitions = typed u32 primitive {argument via FromStr, argument via .parse(f), guarded argument, positional, env-backed argument} under EVERY type-correct wrapper stack of depth <= 3 from {guard, hide, fallback, fallback_with ok/err, last, optional, many, some, collect (with and without catch), guard on the list, fallback on the list} in 5 contexts {top-level field, branch of an alternative, inside a sub-command, member of an adjacent group, inside an adjacent sub-command} beside 0..2 neutral items, the bare levels also with fallback_to_usage (a present invalid value still fails with its own message); accepted vectors are discovered on the whole token tree; for each, every typed value occurrence is replaced by each of {x, empty, -1 attached, 99999999999, \\xff, guard-violating 11} -> must be an stderr failure whose text carries the FromStr / parse / guard message (text not demanded inside an alternative, nothing demanded under catch); the item removed -> a value iff the stack defaults when absent, else an stderr failure; env-backed: invalid (unparsable, empty, non-UTF-8) variable with the item absent from the line fails the same way; plus a guard attached to a GROUP of two arguments (plain and adjacent), the group bare / optional / many / some, judged on every vector of length <= 5-6 by a pairing model (k-th --min with k-th --max; a present pair violating the guard must fail with the guard's message, whichever repetition it is); evaluation = one run; non-trivial = accepted vector containing a typed value".into()
     }
     fn bounds(&self, tier: Tier) -> Value {
         json!({"stack_depth": 3, "base_vector_length": tier.pick(3, 4)})
